@@ -451,8 +451,17 @@ def evaluate_payload_template(input, context, template):
                     "States.ArrayUnique failed, arg[0] is not an array."
                 )
 
-            # Use set to get unique values from input then use list to convert back
-            return list(set(input_array))
+            # Keep the first occurrence of each value, in order. The values may
+            # be arrays or objects, which aren't hashable, and using a set would
+            # make the order depend on the hash seed so compare serialised values.
+            unique = []
+            seen = set()
+            for item in input_array:
+                key = json.dumps(item, sort_keys=True)
+                if key not in seen:
+                    seen.add(key)
+                    unique.append(item)
+            return unique
 
         def asl_intrinsic_Base64Encode(args):
             if len(args) != 1:
